@@ -282,13 +282,21 @@ fn molodensky(rep: &Report, tier: Tier, worst: &Mutex<BTreeMap<String, f64>>) {
     let (e0, e1) = ("intl", "GRS80");
     let ell1 = ref_ellipsoid(e1).unwrap();
     for shift in [[-87., -96., -120.], [100., -100., 100.], [0., 0., 0.], [-200., 0., 0.], [0., 150., -150.]] {
-        for abridged in [false, true] {
-            let mol = format!("molodensky ellps_0={e0} ellps_1={e1} dx={} dy={} dz={}{}", shift[0], shift[1], shift[2], if abridged { " abridged" } else { "" });
+        for (abridged, spelling) in [(false, 0), (true, 0), (false, 1), (false, 2), (false, 3), (true, 3)] {
+            // the same pair of ellipsoids, spelled in every way the gamut allows
+            let ell0 = ref_ellipsoid(e0).unwrap();
+            let ellipsoids = match spelling {
+                0 => format!("ellps_0={e0} ellps_1={e1}"),
+                1 => format!("ellps={e0} ellps_1={e1}"),
+                2 => format!("ellps_0={e0}"), // the target defaults to GRS80
+                _ => format!("ellps={e0} da={:?} df={:?}", ell1.a - ell0.a, ell1.f - ell0.f),
+            };
+            let mol = format!("molodensky {ellipsoids} dx={} dy={} dz={}{}", shift[0], shift[1], shift[2], if abridged { " abridged" } else { "" });
             let path = format!("cart ellps={e0} | helmert x={} y={} z={} | cart inv ellps={e1}", shift[0], shift[1], shift[2]);
             let mut pts: Vec<C4> = Vec::new();
             for &lat in &lat_lattice(step, 85.) {
                 for &lon in &dlon_lattice(step * 2., 180.) {
-                    for h in [0., 1000.] {
+                    for h in [-10000., 0., 1000., 100000.] {
                         pts.push([lon.to_radians(), lat.to_radians(), h, 2020.]);
                     }
                 }
